@@ -169,6 +169,38 @@ class Source:
                     line=self.line_of(s), end_line=self.line_of(e),
                     sha=hashlib.sha256(self.text[s:e + 1].encode()).hexdigest()[:16])
 
+    def ctor(self, header_re, scope=None):
+        """constructor: header, then `: m1(args), m2{args}, ...`, then the body.  Returns function()'s dict plus
+        inits = [(member, args)] in textual order (R19)."""
+        lo, hi = self.scope(scope) or (0, len(self.text))
+        ms = list(re.finditer(header_re, self.text[lo:hi]))
+        if len(ms) != 1:
+            raise ExtractionBreak('constructor header /%s/ matched %d times (expected 1)' % (header_re, len(ms)))
+        s, he = lo + ms[0].start(), lo + ms[0].end()
+        t, i, inits = self.text, he, []
+        ws = lambda k: k + (len(t[k:]) - len(t[k:].lstrip()))
+        i = ws(i)
+        if t[i] == ':':
+            i += 1
+            while True:
+                i = ws(i)
+                m = re.match(r'(\w+)\s*([({])', t[i:])
+                if not m:
+                    raise ExtractionBreak('constructor /%s/: mem-initializer not of the form member(args) or member{args} at %r' % (header_re, t[i:i + 40]))
+                op = i + m.end() - 1
+                cl = match_close(t, op, m.group(2), ')' if m.group(2) == '(' else '}')
+                inits.append((m.group(1), t[op + 1:cl].strip()))
+                i = ws(cl + 1)
+                if t[i] == ',':
+                    i += 1
+                    continue
+                break
+        if t[i] != '{':
+            raise ExtractionBreak('constructor /%s/: body expected at %r' % (header_re, t[i:i + 40]))
+        b, e = i, match_close(t, i)
+        return dict(header=t[s:he], between=t[he:b], body=t[b:e + 1], inits=inits, line=self.line_of(s), end_line=self.line_of(e),
+                    sha=hashlib.sha256(t[s:e + 1].encode()).hexdigest()[:16])
+
     def grab(self, regex, group=1, scope=None):
         """unique regex match anywhere (or in scope); returns group."""
         lo, hi = self.scope(scope) or (0, len(self.text))
